@@ -4,6 +4,7 @@ import (
 	"context"
 	"fmt"
 	"sort"
+	"strings"
 
 	"github.com/anishathalye/porcupine"
 
@@ -142,12 +143,18 @@ func queueScenario(c queueCfg, pb int) *explore.Scenario {
 			client++
 			vrt.Go("closer", func() {
 				vrt.PointAlways("close")
+				// Close is not atomic with respect to Deliver (its select may still take a free
+				// slot after the closed channel is closed, and Close drains concurrently), so the
+				// model sees it as two instants: the call, from which on a Deliver may go either
+				// way, and the return, after which every Deliver must be refused.
 				call := l.tick()
+				l.ops = append(l.ops, qop{Client: cl, Kind: "close-begin", Call: call, Ret: l.tick()})
 				l.add(event{Kind: "close-call"})
 				q.Close()
 				l.closed = true
 				l.add(event{Kind: "close-ret"})
-				l.ops = append(l.ops, qop{Client: cl, Kind: "close", Call: call, Ret: l.tick()})
+				end := l.tick()
+				l.ops = append(l.ops, qop{Client: cl, Kind: "close-end", Call: end, Ret: l.tick()})
 			})
 		}
 	}
@@ -189,7 +196,7 @@ func b2i(b bool) int {
 type qstate struct {
 	items    string // msg ids as bytes
 	inflight int
-	closed   bool
+	phase    int // 0 open, 1 closing (Close called), 2 closed (Close returned)
 }
 
 func queueModel(capacity int) porcupine.Model {
@@ -201,19 +208,35 @@ func queueModel(capacity int) porcupine.Model {
 			switch o.Kind {
 			case "deliver":
 				full := len(s.items)+s.inflight >= capacity
-				if o.OK {
-					if s.closed || full {
-						return false, s
+				switch s.phase {
+				case 0:
+					if o.OK {
+						if full {
+							return false, s
+						}
+						s.items += string(rune(o.Msg + 1))
+						return true, s
 					}
-					s.items += string(rune(o.Msg + 1))
+					return full, s
+				case 1:
+					// while Close runs a Deliver may be refused or may still be accepted
+					if o.OK {
+						if full {
+							return false, s
+						}
+						s.items += string(rune(o.Msg + 1))
+					}
 					return true, s
+				default:
+					return !o.OK, s
 				}
-				return s.closed || full, s
 			case "take":
-				if len(s.items) == 0 || int(s.items[0])-1 != o.Msg {
+				i := strings.IndexRune(s.items, rune(o.Msg+1))
+				if i < 0 || (i > 0 && s.phase == 0) {
 					return false, s
 				}
-				s.items = s.items[1:]
+				// while Close drains the queue, messages ahead of this one may have been discarded
+				s.items = s.items[i+1:]
 				s.inflight++
 				return true, s
 			case "release":
@@ -227,8 +250,11 @@ func queueModel(capacity int) porcupine.Model {
 				}
 				s.items = s.items[o.N:]
 				return true, s
-			case "close":
-				s.closed = true
+			case "close-begin":
+				s.phase = 1
+				return true, s
+			case "close-end":
+				s.phase = 2
 				s.items = ""
 				return true, s
 			}
@@ -330,7 +356,10 @@ func checkQueue(c queueCfg, x *vrt.Exec) []explore.Finding {
 		}
 	}
 	// linearizability of the complete history against a bounded FIFO
-	if len(fs) == 0 && len(parkedProducers(c, parked)) == 0 {
+	// (a purger that is still blocked inside Purge - see the note above - has removed messages
+	// without its operation ever returning: the recorded history is then incomplete and is not
+	// judged)
+	if _, purgerStuck := parked["purger"]; len(fs) == 0 && len(parkedProducers(c, parked)) == 0 && !purgerStuck {
 		var ops []porcupine.Operation
 		for _, o := range l.ops {
 			ops = append(ops, porcupine.Operation{ClientId: o.Client, Input: o, Call: int64(o.Call), Output: o, Return: int64(o.Ret)})
